@@ -5,6 +5,9 @@ use astrolabe::{Date, DateTime, DateUtilities, Offset, OffsetUtilities, Time, Ti
 
 pub const NS: i128 = 1_000_000_000;
 
+/// in-range values that could not be built / did not read back (C03 judges this; other checks only count it)
+pub static CONSTRUCT_FAILED: std::sync::atomic::AtomicU64 = std::sync::atomic::AtomicU64::new(0);
+
 pub fn date_from_day(day: i64) -> Out<Date> {
     call(|| Date::from_timestamp((day - cal::DAYS_TO_1970) * 86_400))
 }
@@ -18,7 +21,7 @@ pub fn date_day(d: &Date) -> i64 {
 pub fn dt_from(day: i64, nanos: u64) -> Option<DateTime> {
     let secs = (day - cal::DAYS_TO_1970) * 86_400 + (nanos / 1_000_000_000) as i64;
     let sub = (nanos % 1_000_000_000) as u32;
-    match call(|| DateTime::from_timestamp(secs).set_nano(sub)) {
+    let built = match call(|| DateTime::from_timestamp(secs).set_nano(sub)) {
         Out::Val(Ok(dt)) => {
             if dt_instant(&dt) == Some(day as i128 * cal::NANOS_PER_DAY + nanos as i128) {
                 Some(dt)
@@ -27,7 +30,11 @@ pub fn dt_from(day: i64, nanos: u64) -> Option<DateTime> {
             }
         }
         _ => None,
+    };
+    if built.is_none() && (cal::MIN_DAY..=cal::MAX_DAY).contains(&day) && nanos < 86_400_000_000_000 {
+        CONSTRUCT_FAILED.fetch_add(1, std::sync::atomic::Ordering::Relaxed);
     }
+    built
 }
 
 pub fn dt_from_off(day: i64, nanos: u64, off: i32) -> Option<DateTime> {
